@@ -24,9 +24,9 @@ NATIVE_PY = os.environ.get("PYVC_NATIVE_PY", "/venv/bin/python")
 
 
 class Obligation:
-    def __init__(self, name, ctx, goal, kind="ensures", note="", prop_level=True):
+    def __init__(self, name, ctx, goal, kind="ensures", note="", prop_level=True, pc=None):
         self.name = name
-        self.pc = list(ctx.pc)
+        self.pc = list(ctx.pc) if pc is None else list(pc)
         self.goal = goal
         self.kind = kind
         self.note = note
@@ -156,6 +156,11 @@ def concretise(v, m):
         return {"t": "dict", "v": [[concretise(k, m), concretise(x, m)] for k, x in v.d.items()]}
     if isinstance(v, ExcVal):
         return {"t": "exc", "cls": v.cls}
+    from .sym import Rat
+    if isinstance(v, Rat):
+        n = model_value(m, zi(v.n)) if isz(v.n) else v.n
+        f = Fraction(n, v.d)
+        return {"t": "frac", "n": f.numerator, "d": f.denominator}
     if isinstance(v, models.SymTimedelta):
         return {"t": "timedelta", "s": concretise(v.secs, m)}
     if isinstance(v, Obj):
@@ -219,6 +224,8 @@ def value_symbols(v, acc=None):
             value_symbols(x, acc)
     elif isinstance(v, models.SymTimedelta):
         value_symbols(v.secs, acc)
+    elif type(v).__name__ == "Rat":
+        value_symbols(v.n, acc)
     return acc
 
 
@@ -253,17 +260,39 @@ def discharge(ob, timeout_s=10, both=False):
         return res, None
     if c is not False:
         s.add(z3.Not(g))
+    s.set("timeout", int(min(timeout_s, 4) * 1000))
     r = s.check()
+    backend = "z3"
+    active = s
+    if r == z3.unknown:
+        # second strategy: purify arithmetic (names div/mod terms) before the SMT core; decides the nested div/mod
+        # obligations of the encoders in milliseconds where the default strategy times out
+        try:
+            t = z3.Then('simplify', 'solve-eqs', 'purify-arith', 'smt').solver()
+            t.set("timeout", int(timeout_s * 1000))
+            for f in ob.pc:
+                t.add(f)
+            if c is not False:
+                t.add(z3.Not(g))
+            r2 = t.check()
+            if r2 != z3.unknown:
+                r, backend, active = r2, "z3-purify-arith", t
+        except z3.Z3Exception:
+            pass
+    if r == z3.unknown and timeout_s > 4:
+        s.set("timeout", int(timeout_s * 1000))
+        r = s.check()
+        active = s
     model = None
     if r == z3.unsat:
-        res.update(status="discharged", backend="z3")
+        res.update(status="discharged", backend=backend)
     elif r == z3.sat:
-        model = s.model()
-        res.update(status="refuted", backend="z3")
+        model = active.model()
+        res.update(status="refuted", backend=backend)
         if ob.inexact:
-            res.update(status="unknown", backend="z3", reason="sat under a quantified/approximated assumption")
+            res.update(status="unknown", backend=backend, reason="sat under a quantified/approximated assumption")
     else:
-        res.update(status="unknown", backend="z3", reason=s.reason_unknown())
+        res.update(status="unknown", backend=backend, reason=s.reason_unknown())
     if res["status"] == "unknown" or (both and res["status"] == "discharged"):
         cv = run_cvc5(s.to_smt2(), timeout_s)
         res["cvc5"] = cv
